@@ -250,7 +250,9 @@ fn literals(report: &Report) {
 /// (every key maps to its own marker), and a key that is not there must fail.
 fn awkward_keys(report: &Report) {
     let parser = cfgs::parser(Config::Stdlib);
-    let keys = ["a b", "a.b", "a[0]", "é", "👍k", "", " ", "-1", "0", "1.5", "true", "nil", "empty", "first", "size", "last", "a-b", "_u", "A", "a", "it's", "say \"hi\"", "{{", "%}", "k|upcase", "o", "kv"];
+    let keys = ["a b", "a.b", "a[0]", "é", "👍k", "", " ", "-1", "0", "1.5", "true", "nil", "empty", "first", "size", "last", "a-b", "_u", "A", "a", "it's", "say \"hi\"", "{{", "%}", "k|upcase", "o", "kv",
+        // spellings of integers that are not the canonical one: as keys they are just text, all different from each other
+        "7", "007", "+7", "07", "-0", "00", "+0", "1e1", "0x10", "1_000", "１"];
     let obj = V::Obj(keys.iter().enumerate().map(|(i, k)| (k.to_string(), V::Str(format!("v{i}")))).collect());
     let mut n = 0u64;
     let mut run1 = |text: String, data: &V, want: Result<String, ()>| {
@@ -296,7 +298,7 @@ fn awkward_keys(report: &Report) {
     }
     // absent keys fail loudly, also when they are near misses of present ones
     let data = V::obj(&[("o", obj.clone())]);
-    for k in ["zzz", "a  b", "A ", "É", "1", "1.50", "True", "a.b.c", "a_b", "v0"] {
+    for k in ["zzz", "a  b", "A ", "É", "1", "1.50", "True", "a.b.c", "a_b", "v0", "0007", "+07", "-7", "7.0", "000", " 7", "7 "] {
         run1(format!("{{{{ o[\"{k}\"] }}}}"), &data, Err(()));
         run1("{{ o[kv] }}".to_string(), &V::obj(&[("o", obj.clone()), ("kv", V::s(k))]), Err(()));
     }
